@@ -118,6 +118,10 @@ class Check:
 
         self.known: Dict[str, Dict[str, Any]] = {}
         self.known_prefixes: List[Tuple[str, Dict[str, Any]]] = []
+        # "contains": one defect that shows at many call sites (*e.g.*, every generator
+        # asserts on an enumeration without literals); the key of the entry is the part of
+        # the mechanism that names the defect, whatever the site
+        self.known_contains: List[Tuple[str, Dict[str, Any]]] = []
         if KNOWN_PATH.exists():
             data = json.loads(KNOWN_PATH.read_text())
             for entry in data.get("findings", []):
@@ -127,6 +131,8 @@ class Check:
                     continue
                 if entry.get("match") == "prefix":
                     self.known_prefixes.append((entry["key"], entry))
+                elif entry.get("match") == "contains":
+                    self.known_contains.append((entry["key"], entry))
                 else:
                     self.known[entry["key"]] = entry
 
@@ -222,6 +228,9 @@ class Check:
             return entry
         for prefix, e in self.known_prefixes:
             if key.startswith(prefix):
+                return e
+        for part, e in self.known_contains:
+            if part in key:
                 return e
         return None
 
